@@ -58,6 +58,7 @@ def check_transition(alpha, views, path, ai, snoop, res, viol):
             return  # reported at the transition where it first happens
     if not CC.views_equal(rc.view(), m.canon()):
         return  # divergence already reported on an earlier transition
+    before_view = rc.view()
     must, may = m.step(views[ai])
     got, exc = rc.feed(alpha[ai], len(path))
     res["transitions"] += 1
@@ -69,6 +70,20 @@ def check_transition(alpha, views, path, ai, snoop, res, viol):
         return
     if not CC.views_equal(rc.view(), m.canon()):
         viol("mirror-differs", discr(alpha[ai], "view"), "after %r + %r: client %r, reference %r" % (path, alpha[ai], rc.view(), m.canon()), rep)
+    # independent of the reference interpreter: an event is raised iff the value changed (the client's own view)
+    if exc is None:
+        bv = {(d, p): dict(pr[4]) for d, props in before_view for p, pr in props}
+        av = {(d, p): dict(pr[4]) for d, props in rc.view() for p, pr in props}
+        for e in got:
+            same_obj = len(e) > 6 and e[6]
+            if e[0] == "ValueUpdate" and e[4] is not None and ((e[4] == e[5] and not isinstance(e[4], tuple)) or same_obj):  # equal BLOBs in distinct objects: I-2
+                viol("event-without-change", discr(alpha[ai], "ValueUpdate"), "after %r + %r: event %r has identical old and new value" % (path, alpha[ai], e), rep)
+        if not alpha[ai][0].startswith("def"):
+            for key, els in av.items():
+                for en, val in els.items():
+                    old = bv.get(key, {}).get(en, "<new>")
+                    if old != "<new>" and old != val and not any(e[0] == "ValueUpdate" and (e[1], e[2], e[3]) == (key[0], key[1], en) for e in got):
+                        viol("change-without-event", discr(alpha[ai], "ValueUpdate"), "after %r + %r: %s/%s.%s changed %r -> %r without a ValueUpdate" % (path, alpha[ai], key[0], key[1], en, old, val), rep)
     ok, why = CC.events_ok(got, must, may)
     if not ok:
         viol("events-differ", discr(alpha[ai], why.split(" (")[0].split(" ")[0] + "-event"), "after %r + %r: %s; got %r" % (path, alpha[ai], why, got), rep)
